@@ -377,7 +377,17 @@ impl ManagePatches for PatchManager {
             self.patches_state.last_booted_patch.clone(),
             self.patches_state.next_boot_patch.clone(),
         ) {
-            if last_boot_patch.number != next_boot_patch.number {
+            // The pending patch may be the one the engine is booting right now (it becomes the
+            // last good patch on success), or the very patch we just moved into place.
+            let is_booting = self
+                .patches_state
+                .currently_booting_patch
+                .as_ref()
+                .is_some_and(|p| p.number == next_boot_patch.number);
+            if last_boot_patch.number != next_boot_patch.number
+                && next_boot_patch.number != patch_number
+                && !is_booting
+            {
                 shorebird_info!(
                     "Patch {} was installed but never booted never booted, deleting artifacts",
                     next_boot_patch.number
